@@ -1239,6 +1239,18 @@ def ref_schema(packages: List[str], edges: List[Tuple[str, str]], style: str = "
                                  "src_module": module_of(s), "holder": hname, "number": num,
                                  "dst_module": module_of(d), "dst_flat": flat,
                                  "dst_kind": "message" if kind in ("msg", "nested") else "enum"})
+            # a message that refers to a descendant package AND has a field named like that package's import alias
+            # (`from . import x` / `from .x import y as x_y`): the field name must not capture the reference
+            sp, dp = (s.split(".") if s else []), (d.split(".") if d else [])
+            if len(dp) > len(sp) and dp[:len(sp)] == sp:
+                alias = "_".join(dp[len(sp):])
+                hname2 = "HolderAlias%d" % j
+                t = tref(d, "msg")
+                holders.append(Message(hname2, [Field(alias, 1, scalar("int32")), Field("item", 2, t), Field("items", 3, t, "repeated")]))
+                for num2, site2 in ((2, "field"), (3, "repeated")):
+                    refs.append({"key": "%s|%s|msg|alias-named-sibling-%s" % (s, d, site2), "src": s, "dst": d, "kind": "msg", "site": site2,
+                                 "src_module": module_of(s), "holder": hname2, "number": num2,
+                                 "dst_module": module_of(d), "dst_flat": "".join(t.path), "dst_kind": "message"})
             for k, kind in enumerate(("msg", "nested")):
                 t = tref(d, kind)
                 flat = "".join(t.path)
